@@ -199,8 +199,9 @@ pub fn funds(v: &View, q: &Req) -> Funds {
 }
 
 pub fn random_policy(rng: &mut impl Rng) -> ConfPol {
-    let (t, u) = match rng.gen_range(0..10) {
+    let (t, u) = match rng.gen_range(0..12) {
         0 => (1, 1),
+        10 | 11 => (rng.gen_range(1..=2), rng.gen_range(8..=10)),
         1 => (3, 10),
         2 => {
             let k = rng.gen_range(1..=10);
@@ -293,7 +294,8 @@ pub fn random_req(wd: &mut World) -> Req {
         multi_change: rng.gen_bool(0.4),
         prefer_single: rng.gen_bool(0.2),
         everything: rng.gen_bool(0.3),
-        fallback: *pools_in_use.choose(rng).unwrap(),
+        // shielding into Sapling needs no halo2 proof, so such proposals can become transactions cheaply
+        fallback: if kind == Kind::Shielding && rng.gen_bool(0.6) { Pool::Sapling } else { *pools_in_use.choose(rng).unwrap() },
         threshold: 0,
         coinbase_filter: *[0u8, 0, 2, 2, 1].choose(rng).unwrap(),
         from_addrs,
